@@ -18,6 +18,9 @@ func (v *V) evalCall(e *Env, call *ast.CallExpr) []Val {
 	// ---- conversion? ----
 	if e.info != nil {
 		if tv, ok := e.info.Types[call.Fun]; ok && tv.IsType() {
+			if r, ok := v.runesOfBytes(e, call, tv.Type); ok {
+				return []Val{r}
+			}
 			a := e.eval(call.Args[0])
 			return []Val{v.convert(e, a, tv.Type, call.Pos())}
 		}
@@ -1120,4 +1123,59 @@ func (v *V) knownExternal(e *Env, fn *types.Func, recv *Val, call *ast.CallExpr)
 		return []Val{{T: tInt, S: c}}, true
 	}
 	return nil, false
+}
+
+// runesOfBytes: the conversion []rune(string(b)) for b []byte decodes b exactly like bytes.Runes(b);
+// it is translated as a call of bytes.Runes under its (assumed) contract.
+func (v *V) runesOfBytes(e *Env, call *ast.CallExpr, target types.Type) (Val, bool) {
+	sl, ok := target.Underlying().(*types.Slice)
+	if !ok || len(call.Args) != 1 {
+		return Val{}, false
+	}
+	if b, ok := sl.Elem().Underlying().(*types.Basic); !ok || b.Kind() != types.Int32 {
+		return Val{}, false
+	}
+	inner, ok := unparen(call.Args[0]).(*ast.CallExpr)
+	if !ok || len(inner.Args) != 1 {
+		return Val{}, false
+	}
+	itv, ok := e.info.Types[inner.Fun]
+	if !ok || !itv.IsType() || !isString(itv.Type) {
+		return Val{}, false
+	}
+	if at := e.info.TypeOf(inner.Args[0]); at == nil || !isByteSlice(at) {
+		return Val{}, false
+	}
+	// find bytes.Runes among the packages reachable from the loaded ones
+	var fn *types.Func
+	seen := map[string]bool{}
+	var walk func(p *types.Package)
+	walk = func(p *types.Package) {
+		if p == nil || seen[p.Path()] || fn != nil {
+			return
+		}
+		seen[p.Path()] = true
+		if p.Path() == "bytes" {
+			fn, _ = p.Scope().Lookup("Runes").(*types.Func)
+			return
+		}
+		for _, ip := range p.Imports() {
+			walk(ip)
+		}
+	}
+	walk(e.pkg)
+	if fn == nil {
+		return Val{}, false
+	}
+	fs := v.prog.findContract(fn, v.fi.pkg.types.Path())
+	if fs == nil {
+		return Val{}, false
+	}
+	arg := e.eval(inner.Args[0])
+	rs := v.applyContract(e, fs, fn, nil, []Val{arg}, call)
+	if len(rs) != 1 {
+		return Val{}, false
+	}
+	v.trust("[]rune(string(b)) decodes b like bytes.Runes(b)")
+	return Val{T: target, S: rs[0].S}, true
 }
